@@ -529,7 +529,11 @@ func genWorld(r *Rng, cfg *genCfg) *World {
 	}
 	nNP := r.Intn(cfg.maxNP + 1)
 	for i := 0; i < nNP; i++ {
-		w.Objs = append(w.Objs, Obj{Kind: "np", Np: genNetPol(r, cfg, Pick(r, nss), fmt.Sprintf("np%d", i))})
+		npNs := Pick(r, nss)
+		if r.P(4) {
+			npNs = "" // written without metadata.namespace: the policy belongs to `default`
+		}
+		w.Objs = append(w.Objs, Obj{Kind: "np", Np: genNetPol(r, cfg, npNs, fmt.Sprintf("np%d", i))})
 	}
 	if cfg.anp && r.P(70) {
 		n := r.Intn(4)
